@@ -54,7 +54,8 @@ Step ==
               /\ UNCHANGED <<h, eff, cap, offered>>
          [] e.event = "quiesce" ->
               /\ UNCHANGED <<h, eff, cap, cfg, offered>>
-              /\ Report(l, IF cfg.disc THEN {} ELSE
+              \* not judged after Discard, nor when a panic killed the runner (reported by the driver itself)
+              /\ Report(l, IF cfg.disc \/ e.runner = "panic" THEN {} ELSE
                            NameIf(e.h = h, "H:QuiesceHeight")
                            \cup NameIf(e.parked, "H:RunnerNotParked")
                            \* the node reaches the highest contiguous block it was given
